@@ -50,6 +50,8 @@ type CrashKV struct {
 	// Probe, when set, is sampled at every durable write (after it was applied): the DA-included
 	// height the node reports at that instant.
 	Probe func() int
+	// Tap, when set, sees every write record right after it was logged (under the write lock).
+	Tap func(rec F)
 }
 
 // PauseAfter makes the writer of the k-th next write block (after the write was applied)
@@ -191,6 +193,9 @@ func (c *CrashKV) apply(ops []kvop, batch bool) error {
 			rec["incl"] = p()
 		}
 		c.tr.Emit("KV", rec)
+		if c.Tap != nil {
+			c.Tap(rec)
+		}
 	}
 	c.mu.Unlock()
 	if wait != nil {
